@@ -10,7 +10,7 @@ def auto(result):
     import pandas as pd
 
     if isinstance(result, np.ndarray):
-        return result
+        return result if result.size <= 4_000_000 else None  # very large results are not kept alive (memory)
     if isinstance(result, (pd.DataFrame, pd.Series)):
         return result
     if isinstance(result, dict):
